@@ -299,31 +299,50 @@ Lemma recv_chunk_col : forall g0 g1 bb ofs pos w j k, j < K -> k < w ->
   col_byte (recv_chunk g0 g1 bb ofs pos w) j k
   = N.lxor (N.lxor (g1 j (pos + k)) (g0 j (pos + k))) (bb (ofs / 8 + k)).
 Proof.
-  intros. unfold col_byte, recv_chunk.
-  rewrite (nth_map_seq _ j K []) by assumption. rewrite nth_map_seq by assumption. reflexivity.
+  intros. unfold col_byte, recv_chunk. cbv zeta.
+  rewrite (nth_map_seq _ j K []) by assumption. rewrite nth_map_seq by assumption.
+  rewrite nth_map_seq by assumption. reflexivity.
 Qed.
 
 Lemma recv_chunk_shape : forall g0 g1 bb ofs pos w,
   length (recv_chunk g0 g1 bb ofs pos w) = K /\
   forall j, j < K -> length (nth j (recv_chunk g0 g1 bb ofs pos w) []) = w.
 Proof.
-  intros. unfold recv_chunk. split.
+  intros. unfold recv_chunk. cbv zeta. split.
   - rewrite map_length, seq_length. reflexivity.
   - intros j Hj. rewrite (nth_map_seq _ j K []) by assumption. rewrite map_length, seq_length. reflexivity.
+Qed.
+
+Lemma byte_of_ext : forall f g, (forall t, t < 8 -> f t = g t) -> byte_of f = byte_of g.
+Proof.
+  intros f g H. unfold byte_of. f_equal. apply map_ext_in. intros t Ht. apply in_seq in Ht. apply H. lia.
+Qed.
+
+Lemma tamper_col_length : forall Ej col row, length (tamper_col Ej row col) = length col.
+Proof. induction col; intros row; simpl; [reflexivity | rewrite IHcol; reflexivity]. Qed.
+
+Lemma tamper_col_nth : forall Ej col row k, k < length col ->
+  nth k (tamper_col Ej row col) 0%N = N.lxor (nth k col 0%N) (byte_of (fun t => Ej (t + (8 * k + row)))).
+Proof.
+  induction col as [|v col IH]; intros row k Hk; simpl in Hk; [lia|].
+  destruct k as [|k]; cbn [tamper_col nth].
+  - reflexivity.
+  - rewrite IH by lia. f_equal. apply byte_of_ext. intros t _. f_equal. lia.
 Qed.
 
 Lemma tamper_chunk_col : forall E ofs c j k, j < length c -> k < length (nth j c []) ->
   col_byte (tamper_chunk E ofs c) j k = N.lxor (col_byte c j k) (err_byte E j (ofs / 8 + k)).
 Proof.
-  intros E ofs c j k Hj Hk. unfold col_byte, tamper_chunk, mapi.
-  rewrite (nth_mapi_from _ c 0 j [] []) by assumption. simpl.
-  rewrite (nth_mapi_from _ _ 0 k 0%N 0%N) by assumption. reflexivity.
+  intros E ofs c j k Hj Hk. unfold col_byte, tamper_chunk, mapi. cbv zeta.
+  rewrite (nth_mapi_from _ c 0 j [] []) by assumption. cbn [Nat.add].
+  rewrite tamper_col_nth by assumption. f_equal. unfold err_byte.
+  apply byte_of_ext. intros t _. f_equal. lia.
 Qed.
 
 Lemma chunk_w_tamper : forall E ofs c, chunk_w (tamper_chunk E ofs c) = chunk_w c.
 Proof.
   intros E ofs [|col c]; [reflexivity|].
-  unfold chunk_w, tamper_chunk, mapi. simpl. apply mapi_from_length.
+  unfold chunk_w, tamper_chunk, mapi. cbn [mapi_from nth]. apply tamper_col_length.
 Qed.
 
 Lemma chunk_w_recv : forall g0 g1 bb ofs pos w, chunk_w (recv_chunk g0 g1 bb ofs pos w) = w.
@@ -684,8 +703,9 @@ Proof. reflexivity. Qed.
 Lemma tamper_chunks_noerr : forall cs ofs, tamper_chunks noerr ofs cs = cs.
 Proof.
   induction cs as [|c cs IH]; intros ofs; simpl; [reflexivity|].
-  rewrite IH. f_equal. unfold tamper_chunk, mapi. apply mapi_from_id. intros j col.
-  apply mapi_from_id. intros k v. rewrite err_byte_noerr. apply N.lxor_0_r.
+  rewrite IH. f_equal. unfold tamper_chunk, mapi. cbv zeta. apply mapi_from_id. intros j col.
+  generalize (8 * (ofs / 8)). induction col as [|v col IHc]; intros row; cbn [tamper_col]; [reflexivity|].
+  rewrite IHc. f_equal. change (byte_of (fun t => noerr j (t + row))) with 0%N. apply N.lxor_0_r.
 Qed.
 
 Lemma tamper_noerr : forall tr, tamper_bits noerr noerr tr = tr.
